@@ -232,6 +232,31 @@ fn unquoted(src: &mut Src, st: &mut Stats, _env: &Env) -> CaseResult {
             other => return Err(Failure::new("unquoted", "identifier-wrong-member", format!("gave {} expected \"marker\"", other.brief()), case)),
         }
     }
+    // ... and in every operand position: an unquoted identifier is a member name wherever an
+    // expression may stand (also `true`, `false`, `null`, which are not keywords of the language)
+    {
+        let vals = [J::Bool(true), J::Bool(false), J::Null, J::s("M"), J::int(1), J::Arr(vec![J::int(1)])];
+        let kv = vals[src.below(vals.len())].clone();
+        let av = if src.flip() { kv.clone() } else { vals[src.below(vals.len())].clone() };
+        let row = |x: &J, y: &J| J::Obj([(k.clone(), x.clone()), ("v".to_string(), y.clone())].into_iter().collect());
+        let mut m = BTreeMap::new();
+        m.insert(k.clone(), kv.clone());
+        m.insert("a".to_string(), av.clone());
+        m.insert("rows".to_string(), J::Arr(vec![row(&kv, &av), row(&av, &kv), row(&J::Bool(true), &J::Bool(true)), row(&J::Null, &J::Null)]));
+        let d2 = J::Obj(m);
+        let d2t = d2.to_json();
+        let forms = [
+            format!("a == {}", k), format!("{} == a", k), format!("a != {}", k), format!("{} || a", k), format!("a && {}", k), format!("!{}", k), format!("[{}, a]", k), format!("{{x: {}}}", k),
+            format!("rows[?{}]", k), format!("rows[?v == {}]", k), format!("rows[?{} == v]", k), format!("rows[?v != {}].v", k), format!("not_null({})", k), format!("{} | @", k), format!("@ | {}", k),
+            format!("rows[*].{}", k), format!("type({})", k), format!("a < {}", k), format!("{} >= `1`", k), format!("[a, {}] | [1]", k), format!("rows[?v == {} && {} == v]", k, k), format!("a == {} || `false`", k),
+        ];
+        let text = &forms[src.below(forms.len())];
+        if let Ok(tree) = refparse::parse(text, Mode::Strict) {
+            st.eval();
+            crate::props::c01::compare("unquoted", &tree, text, &d2, &d2t, st, false)?;
+            st.class("unquoted:operand-position");
+        }
+    }
     if st.nontrivial(&k) {
         st.sample(|| json!({"identifier": k}));
     }
